@@ -17,6 +17,7 @@ from gramsym.harness import Harness, run_main
 from gramsym import inputs as I, terms as T
 from gramsym.values import (Adt, Struct, TupleV, VecV, Str, Union, none, some, z_and, z_or, z_not, z_eq, InternalError)
 from gramsym.explorer import PathAbort, FuelExhausted, Frame
+from gramsym.interp import PanicEx
 from gramsym.refcheck import RefChecker, Reject, RefUnknown
 from gramsym.lawlib import ConcreteCtx, empty_model, concrete_truth
 from gramsym.termgen import random_program
@@ -87,9 +88,33 @@ def make_factory(H, budget, alphabet, fuel, obligations):
 
         def body(ex):
             it.call_depth = 0
-            obligations(ex, it, root)
+            try:
+                obligations(ex, it, root)
+            except PanicEx as p:
+                # a panic of the real code on a well-formed input is a violation for every property
+                ex.check(False, "PANIC %s (%s.rs:%s)" % (p.msg, p.module, p.line), info=lambda m: TC.input_case(ex, m, root))
         return ex, body, None
     return make
+
+
+def native_panic(H, case):
+    """Does any stage of the compiled pipeline panic (or crash) on this program?"""
+    replay = H.get_replay()
+    r = TC.native_type_check(replay, case, run=False)
+    if "panic" in r or "crash" in r:
+        return True, "compiled type_check: %s" % (r.get("panic") or r.get("crash"))
+    if "ok" in r:
+        for op in ("normalize_weak_head", "evaluate"):
+            cmd = {"op": op, "term": r["ok"]["term"], "cells": r["cells"]}
+            if op == "normalize_weak_head":
+                cmd["defs_ctx"] = []
+            x = replay.call(cmd)
+            if "panic" in x:
+                return True, "compiled %s panics on the elaborated program %s: %s" % (op, r["ok"]["term_shown"], x["panic"])
+    cd = replay.call({"op": "check_definitions", "term": case["t"], "cells": case.get("cells", {}), "depth": 0, "source": ""})
+    if "panic" in cd:
+        return True, "compiled check_definitions panics: %s" % cd["panic"]
+    return False, "no stage of the compiled pipeline panics on %s" % T.show(case["t"], case.get("cells"))
 
 
 def c03_obligations(ex, it, root, ref_fuel=3000):
@@ -191,7 +216,10 @@ def handle(H, records, confirm_fn=None, classify_fn=None, cap=4):
         if n >= cap:
             continue
         seen[lab] = n + 1
-        reproduced, detail = confirm_fn(H, label, case)
+        if label.startswith("PANIC") and "t" in case:
+            reproduced, detail = native_panic(H, case)
+        else:
+            reproduced, detail = confirm_fn(H, label, case)
         H.report(label, case, reproduced, detail, finding=classify_fn(label, case) if reproduced else None)
 
 
